@@ -77,7 +77,7 @@ impl Family for C08Family {
                 _ => {
                     let mut s = gen_ga(&mut r, rp_effective(rp));
                     s.allow = if r.bool() { None } else { Some(vec![IdRef::NthOfRp(r.below(4) as u32)]) };
-                    s.up = true;
+                    s.up = r.chance(4, 5);
                     OpKind::GetAssertion(s)
                 }
             };
@@ -99,7 +99,7 @@ impl Family for C08Family {
         let c = ceremony_of(scn);
         let rec = run_and_measure(c, stats);
         let mut j = Judge::new("C08", scn, &rec);
-        for p in ["assertion_at_counter_max", "assertion_at_counter_max_minus_1", "assertion_at_2_pow_31_boundary", "counterless_assertion", "registration_with_counter", "counter_edit_applied", "success_under_faults", "assertion_with_extension_request"] {
+        for p in ["silent_assertion_up_false", "assertion_at_counter_max", "assertion_at_counter_max_minus_1", "assertion_at_2_pow_31_boundary", "counterless_assertion", "registration_with_counter", "counter_edit_applied", "success_under_faults", "assertion_with_extension_request"] {
             stats.declare_probe(p);
         }
         if let Some(p) = &rec.panic {
@@ -205,6 +205,9 @@ impl Family for C08Family {
                     let reported = reported_counter(o).unwrap_or(0);
                     if has_ext {
                         stats.probe("assertion_with_extension_request");
+                    }
+                    if matches!(kind, OpKind::GetAssertion(g) if !g.up) {
+                        stats.probe("silent_assertion_up_false");
                     }
                     if !strict {
                         stats.probe("success_under_faults");
